@@ -549,7 +549,7 @@ impl TypedScenario for C09E2E {
     }
     fn budget(&self, tier: Tier) -> usize {
         match tier {
-            Tier::Quick => 2800,
+            Tier::Quick => 7000,
             Tier::Thorough => 1_000_000,
         }
     }
@@ -753,7 +753,7 @@ impl TypedScenario for C09Raw {
     }
     fn budget(&self, tier: Tier) -> usize {
         match tier {
-            Tier::Quick => 2000,
+            Tier::Quick => 6000,
             Tier::Thorough => 750_000,
         }
     }
@@ -981,7 +981,7 @@ impl TypedScenario for C09Sync {
     }
     fn budget(&self, tier: Tier) -> usize {
         match tier {
-            Tier::Quick => 100_000,
+            Tier::Quick => 200_000,
             Tier::Thorough => 20_000_000,
         }
     }
